@@ -69,7 +69,14 @@ def run(ctx, res):
     hist = [H.gen_history(rng)["text"] for _ in range(200 if ctx.thorough else 30)]
     if not ctx.thorough:
         ddls = ddls[::2]
-    allddl = [(d, None) for d in ddls] + list(zip(gen, tabs)) + [(h, "hist") for h in hist]
+    # directed: a column declared with one kind of delimiter and named with another (or none) by a later ALTER ... FOREIGN KEY —
+    # every column entry of the table must still have the documented keys
+    directed = []
+    for q1 in H.QUOTES[:4]:
+        for q2 in H.QUOTES[:4]:
+            directed.append("CREATE TABLE t (%s int, %s int NOT NULL, note varchar(10));\nALTER TABLE t ADD CONSTRAINT fk_c FOREIGN KEY (%s) "
+                            "REFERENCES customers (id);\n" % (q1("id"), q1("customer_id"), q2("customer_id")))
+    allddl = [(d, None) for d in ddls] + list(zip(gen, tabs)) + [(h, "hist") for h in hist] + [(d, "hist") for d in directed]
     for mode in modes:
         for group in (False, True):
             if not ctx.thorough and group and mode not in ("sql", "hql", "bigquery"):
